@@ -62,11 +62,13 @@ static unsigned long rnd(unsigned long m) { return m ? (unsigned long)(seam::nex
 static json vec_j(const std::vector<mpz_ptr> &v) { json a = json::array(); for (size_t k = 0; k < v.size(); k++) a.push_back(mpz2l(v[k])); return a; }
 static json qual_j(const std::vector<size_t> &q) { json a = json::array(); for (size_t k = 0; k < q.size(); k++) a.push_back(q[k]); return a; }
 
-struct Cfg { std::string proto; size_t n, t, trbc; std::vector<int> role; /* 0 honest, 1 lib-faulty, 2 silent */ long tamper_from, tamper_to; unsigned long seed; bool rndorder; };
+struct Cfg { std::string proto; size_t n, t, trbc; std::vector<int> role; /* 0 honest, 1 lib-faulty, 2 silent, 3 tampered dealer, 4 crashes after some sends */ long tamper_from, tamper_to; unsigned long seed; bool rndorder; std::vector<long> cut_after; };
 
 static const long GROUPS[][3] = { {2063, 1031, 2}, {46199, 23099, 2}, {46327, 1103, 42}, {23, 11, 2}, {47, 23, 2} };
 
 static void run_exec(std::ofstream &out, const Cfg &c, long gi) {
+	// everything inside an execution derives from its seed, so that "one" repeats it exactly
+	seam::seed_harness(c.seed * 31UL + 7); seam::seed(c.seed * 17UL + 3);
 	long p = GROUPS[gi][0], q = GROUPS[gi][1], k = GROUPS[gi][2];
 	GP = Mpz(p); GQ = Mpz(q); mpz_sub_ui(GP1, GP, 1);
 	{ Mpz b(2 + rnd(20)); mpz_powm_ui(GG, b, (unsigned long)k, GP); while (mpz_cmp_ui(GG.v, 1) == 0) { mpz_add_ui(b, b, 1); mpz_powm_ui(GG, b, (unsigned long)k, GP); } }
@@ -74,10 +76,12 @@ static void run_exec(std::ofstream &out, const Cfg &c, long gi) {
 	size_t n = c.n, t = c.t;
 	json ev; ev["e"] = "Reset"; ev["proto"] = c.proto; ev["grp"] = {p, q, GG.l(), GH.l()}; ev["n"] = n; ev["t"] = t; ev["trbc"] = c.trbc;
 	json roles = json::array(); for (size_t i = 0; i < n; i++) roles.push_back(c.role[i]); ev["role"] = roles;
-	ev["tamper"] = {c.tamper_from, c.tamper_to}; ev["seed"] = c.seed; ev["rnd"] = c.rndorder;
+	ev["tamper"] = {c.tamper_from, c.tamper_to}; ev["cut_after"] = c.cut_after; ev["seed"] = c.seed; ev["gi"] = gi; ev["rnd"] = c.rndorder;
 	out << ev.dump() << "\n";
 	sim::Sched sc(n, c.seed, c.rndorder);
 	sim::Net netu(n), netb(n);
+	std::vector<long> sent_total(n, 0), cut_after = c.cut_after; cut_after.resize(n, -1);
+	netu.sent_total = netb.sent_total = &sent_total; netu.cut_after = netb.cut_after = &cut_after;
 	for (size_t i = 0; i < n; i++) if (c.role[i] == 2) { netu.cut[i] = true; netb.cut[i] = true; }
 	if (c.tamper_from >= 0) { sim::Net::Tamper tp; tp.from = (size_t)c.tamper_from; tp.to = (size_t)c.tamper_to; tp.index = (long)(c.seed % 2); tp.add = "1"; tp.drop = false; netu.tampers.push_back(tp); }
 	std::vector<bool> active(n, true);
@@ -187,9 +191,10 @@ int main(int argc, char **argv) {
 			size_t tmax = (c.n - 1) / 2;                       // synchronous t-resilience of the sharing protocols
 			c.t = tmax ? (rnd(3) == 0 ? rnd(tmax + 1) : tmax) : 0;
 			c.trbc = std::min(c.t, (c.n - 1) / 3);
-			c.role.assign(c.n, 0); c.tamper_from = c.tamper_to = -1;
+			c.role.assign(c.n, 0); c.tamper_from = c.tamper_to = -1; c.cut_after.assign(c.n, -1);
 			size_t nf = std::min(c.t, (c.n - 1) / 3);          // faults within both bounds
-			size_t kind = rnd(5);                              // 0 none, 1 lib, 2 silent, 3 tamper, 4 mixed
+			size_t kind = rnd(7);                              // 0 none, 1 lib, 2 silent, 3 tamper, 4 mixed, 5 crash mid-way, 6 wrong share then crash
+			c.cut_after.assign(c.n, -1);
 			if (nf > 0 && kind > 0) {
 				size_t cnt = 1 + rnd(nf);
 				for (size_t f = 0; f < cnt; f++) {
@@ -197,6 +202,8 @@ int main(int argc, char **argv) {
 					if (kind == 1) c.role[who] = 1;
 					else if (kind == 2) c.role[who] = 2;
 					else if (kind == 3) { c.tamper_from = (long)who; c.tamper_to = (long)((who + 1 + rnd(c.n - 1)) % c.n); c.role[who] = 3; break; }
+					else if (kind == 5) { c.role[who] = 4; c.cut_after[who] = (long)(1 + rnd(40 * c.n)); }
+					else if (kind == 6) { c.role[who] = 4; c.tamper_from = (long)who; c.tamper_to = (long)((who + 1 + rnd(c.n - 1)) % c.n); c.cut_after[who] = (long)(c.n + rnd(12 * c.n)); break; }
 					else c.role[who] = 1 + (int)rnd(2);
 				}
 			}
@@ -204,6 +211,15 @@ int main(int argc, char **argv) {
 			if (getenv("VERIF_ONLY") && atol(getenv("VERIF_ONLY")) != x) continue;
 			run_exec(out, c, gi);
 		}
+		return 0;
+	}
+	if (argc >= 4 && !strcmp(argv[1], "one")) {      // one explicitly described execution (the triggers of recorded findings)
+		json j = json::parse(argv[2]);
+		std::ofstream out(argv[3]);
+		Cfg c; c.proto = j["proto"]; c.n = j["n"]; c.t = j["t"]; c.trbc = j["trbc"]; c.role = j["role"].get<std::vector<int> >();
+		c.tamper_from = j["tamper"][0]; c.tamper_to = j["tamper"][1]; c.seed = j["seed"]; c.rndorder = j["rnd"];
+		c.cut_after = j.contains("cut_after") ? j["cut_after"].get<std::vector<long> >() : std::vector<long>(c.n, -1);
+		run_exec(out, c, j["gi"].get<long>());
 		return 0;
 	}
 	if (argc >= 3 && !strcmp(argv[1], "verify")) {
